@@ -1,16 +1,6 @@
 #!/bin/sh
-# usage: tools/mutants_run.sh [pattern]   -- runs every mutant under /verif/mutants and checks
-# that the expected obligation fails (must-fail corpus, DESIGN.md §2.10.5)
+# usage: tools/mutants_run.sh [pattern] [jobs]  -- runs every mutant under /verif/mutants (jobs at a
+# time, default 4) and checks that the expected obligation fails (must-fail corpus, DESIGN.md §2.10.5)
 cd /verif
-pat="${1:-}"
-fail=0
-for m in mutants/*${pat}*.diff; do
-  prop=$(sed -n 's/^# property: //p' "$m"); exp=$(sed -n 's/^# expect: //p' "$m")
-  out=$(tools/mutant.sh "$m" "$prop" 2>&1)
-  if echo "$out" | grep -q "VIOLATION.*obligation=[^ ]*$(printf '%s' "$exp" | sed 's/[][\\.*^$]/\\&/g')"; then
-    echo "CAUGHT  $m  ($exp)"
-  else
-    echo "MISSED  $m  (expected $exp)"; echo "$out" | head -5 | sed 's/^/        /'; fail=1
-  fi
-done
-exit $fail
+pat="${1:-}"; jobs="${2:-4}"
+ls mutants/*${pat}*.diff | xargs -P "$jobs" -n 1 tools/mutant_one.sh
